@@ -71,7 +71,13 @@ CalculateResults(g) ==
          pots |-> [k \in 1..Len(g.pots) |-> [total |-> g.pots[k].total, winners |-> r.potw[k]]],
          extra |-> 0]]
 
-Deal(g, k) == [cards |-> SubSeq(g.meta.deck, g.deckPos + 1, g.deckPos + k), g |-> [g EXCEPT !.deckPos = g.deckPos + k]]
+\* total also past the end of the deck (the Go code indexes the slice and panics there; a recorded state of a CHANGED engine may
+\* sit at any deck position - seeded change R5b-D burned two cards per street - and the trace specification must not die on it:
+\* the model deals what is left, the recorded panic shows as drift and whatever clause of C14 it breaks as a violation)
+Deal(g, k) == LET n == Len(g.meta.deck)
+                  a == g.deckPos + 1
+                  b == IF g.deckPos + k > n THEN n ELSE g.deckPos + k
+              IN [cards |-> IF a > b \/ a < 1 THEN <<>> ELSE SubSeq(g.meta.deck, a, b), g |-> [g EXCEPT !.deckPos = g.deckPos + k]]
 Burn1(g) == LET d == Deal(g, 1) IN [d.g EXCEPT !.burned = g.burned \o d.cards]
 
 RECURSIVE Emit(_, _, _)
